@@ -342,7 +342,7 @@ def b3(ctx, F, nodes):
             cut = ("(beta <= %s)" % LOWER[p]) in gt and p != E
             if k in ("Break", "Ret") and cut:
                 continue
-            if k == "Continue" and p == Q and gt == ["!Move::is_tactical_move(_move)"] and not gf:
+            if k == "Continue" and p == Q and gf == ["Move::is_tactical_move(_move)"] and not gt:
                 continue
             unknown.append((k, line, gt, gf))
         ctx.check("C09.B3", "loop-left-only-at-a-cut-off:" + short, not unknown, fn=p, file=nd.fn["file"],
@@ -355,7 +355,7 @@ def b3(ctx, F, nodes):
         for c in loop["searches"]:
             okw, _, kind = _window_ok(nd, c) if c["args"] and c["pending"] else (False, None, None)
             if kind in ("full", "null"):
-                g = [x for x in c["guards"] if not (p == Q and x == ("!Move::is_tactical_move(_move)", False))]
+                g = [x for x in c["guards"] if not (p == Q and x == ("Move::is_tactical_move(_move)", True))]
                 first.append((kind, g, c["line"]))
         cover = False
         if len(first) == 1 and first[0][1] == []:
